@@ -28,6 +28,8 @@ QUICK = [
               "Prelude": "<- PreFunc", "MaxN": "4", "MaxStk": "3", "MaxStmts": "1"}, None),
     ("foppre", {"Fam": "<- FamFopPre", "LitPool": "<- Lits2", "Names": "<- Names1", "Prelude": "<- PreFop",
                 "MaxN": "5", "MaxStk": "3", "MaxStmts": "1"}, None),      # 5 nodes: the smallest that holds a reduce
+    ("conlet", {"Fam": "<- FamCon", "LitPool": "<- LitsCon", "Names": "<- Names2", "ConPool": "<- Cons1",
+                "MaxN": "1", "MaxStk": "1", "MaxStmts": "2"}, None),      # let name :: constraint = value
     ("misc", {"Fam": "<- FamMisc", "LitPool": "<- LitsFmt", "Names": "<- Names1", "BinOps": "<- Ops2",
               "TyNames": "<- TySome", "MaxN": "3", "MaxStk": "3", "MaxStmts": "1"}, None),
     ("cast", {"Fam": "<- FamCast", "LitPool": "<- LitsCast", "Names": "<- Names1", "BinOps": "<- Ops2",
@@ -233,6 +235,8 @@ THOROUGH = [
               "Prelude": "<- PreFunc", "MaxN": "5", "MaxStk": "3", "MaxStmts": "1"}, None),
     ("foppre", {"Fam": "<- FamFopPre", "LitPool": "<- Lits3", "Names": "<- Names1", "Prelude": "<- PreFop",
                 "MaxN": "5", "MaxStk": "3", "MaxStmts": "1"}, None),
+    ("conlet", {"Fam": "<- FamCon", "LitPool": "<- LitsCon", "Names": "<- Names3", "ConPool": "<- Cons1",
+                "MaxN": "1", "MaxStk": "1", "MaxStmts": "3"}, None),
     ("misc", {"Fam": "<- FamMisc", "LitPool": "<- LitsFmt", "Names": "<- Names1", "BinOps": "<- Ops2",
               "TyNames": "<- TySome", "MaxN": "4", "MaxStk": "3", "MaxStmts": "1"}, None),
     ("cast", {"Fam": "<- FamCast", "LitPool": "<- LitsCast", "Names": "<- Names1", "BinOps": "<- Ops2",
